@@ -674,6 +674,21 @@ def run_case(case):
                        member=is_member(locus, e) if locus is not None else True)
             if locus is not None and case['dyn'] == 'syn' and st.get('tranche') is not None:
                 check_skipped(upto=(lkey(locus), e, fkey(orig)))
+            elif posted_time is not None and case['dyn'] == 'sto' and st.get('gil') is not None and not any(o[0] == 'gillespie' for o in info['oracle']):
+                # with all rates zero the loop jumps to the next posted time and comes back to look at the rates; once a posted event has made
+                # them positive, no posted event of a strictly later time may fire before a waiting time is drawn
+                a0 = 0.0
+                for (_, r_, _, _) in st['gil']['tr']: a0 += r_
+                if a0 == 0.0:
+                    tot = 0.0
+                    for q_ in top.allProcesses():
+                        for (l_, pr_, f_, nm_) in q_.perElementEventDistribution(t): tot += pr_ * sum(1 for _ in l_)
+                        for (l_, pr_, f_, nm_) in q_.fixedRateEventDistribution(t): tot += pr_
+                    if tot > 0.0:
+                        if st.get('pos_since') is None: st['pos_since'] = posted_time
+                        elif posted_time > st['pos_since']:
+                            info['oracle'].append(('gillespie', f"the total event rate has been positive ({tot}) since {st['pos_since']}, yet the posted event due at {posted_time} "
+                                                   f"fired without a waiting time having been drawn"))
             elif posted_time is not None and case['dyn'] == 'syn' and st.get('tranche'):
                 # a posted event belongs to the next timestep: whatever is left of the last tranche was passed over, and has to be judged
                 # now, before this handler changes the state
@@ -766,6 +781,7 @@ def run_case(case):
                     if t != want_t:
                         info['oracle'].append(('gillespie', f"the iteration that started at {prev['t']} drew r1={rs0[0]} at total rate {a0}: the next one should start at {want_t}, it starts at {t}"))
             st['gil'] = dict(t=t, tr=[(l, r, getattr(f, '_orig', f), nm) for (l, r, f, nm) in tr], mark=len(sr.recent))
+            st['pos_since'] = None
             return tr
 
         def allEventsInTimestep(self, t):
